@@ -19,6 +19,9 @@ def dry_vs_real(rng, driver, vcs, license_fault=False):
                                      vp=rng.choice(["vYYYY.BUILD[-TAG]", "YYYY.MM.PATCH", "vYYYY0M.BUILD[-TAG]", "YYYY.BUILD[PYTAGNUM]"]))
     else:
         pr = rwcommon.gen_ok_project(rng, mixed_endings=False)
+        # configuration spellings that mean the same thing: implicit self pattern, non-normalised keys, glob keys (also over hidden files), ONE file
+        # reachable through two keys with different patterns (the diff path prints a section per entry, the write path must not lose one)
+        pr["variants"] = rng.random() < 0.6
     extra = "commit = true\ntag = true\npush = false" if vcs else ""
     set_version = rng.random() < 0.4
     args = rwcommon.update_args(pr, set_version=set_version)
